@@ -288,7 +288,7 @@ func (g *sqGen) defaultFor(typ string) string {
 	case isTextType(typ):
 		// (the last two are written between double quotes, which SQLite reads as strings and the inspector
 		// keeps as written: the planner re-quotes them)
-		return hx.Pick(g.r, []string{"'x'", "''", "'it''s'", "'hello world'", "'100%'", "NULL", "'NULL'", "'5'", "'x''00'", `"it's"`, `"two words"`})
+		return hx.Pick(g.r, []string{"'x'", "''", "'it''s'", "'hello world'", "'100%'", "NULL", "'NULL'", "'5'", "'x''00'", `"it's"`, `"two words"`, "'semi;colon'", "';'"})
 	case typ == "boolean":
 		return hx.Pick(g.r, []string{"0", "1", "true", "false"})
 	case typ == "datetime" || typ == "date":
